@@ -206,6 +206,17 @@ def job(a):
                 if bytes(p2(p1(data))) != data:
                     bad("involution", key, 0, n, None, "", bytes(p2(p1(data))), data)
                 evals += 1
+                # a masker object used again after the public reset(): offset 0, key from its start
+                m_ = p1.__self__
+                m_.reset()
+                if m_.pointer() != 0:
+                    bad("pointer-after-reset", key, 0, n, None, "ptr=%r right after reset()" % (m_.pointer(),), b"", b"")
+                again = bytes(m_.process(data))
+                if again != xor(key, data, 0):
+                    bad("xor-after-reset", key, 0, n, None, "", again, xor(key, data, 0))
+                if m_.pointer() != n:
+                    bad("pointer-after-reset", key, 0, n, None, "ptr=%r after reset() + %d octets" % (m_.pointer(), n), b"", b"")
+                evals += 1
     if a["lengths"]:
         n = a["lengths"][-1]
         samples.append({"impl": impl, "len": n, "key": keys(seed)[2].hex(), "start_offset": 3,
